@@ -472,7 +472,7 @@ static void app_start_token(int ti)
     sim_note(nm);
   }
   case_ev(4, (unsigned)(t->kind * 8 + t->action));
-  vh_trace("start tok %d kind %s name '%s' type %d action %s", ti, rk_names[t->kind], t->name, t->qtype,
+  vh_trace("t=%lldms start tok %d kind %s name '%s' type %d action %s", (long long)((sim_now_us % 100000000000LL) / 1000), ti, rk_names[t->kind], t->name, t->qtype,
            ra_names[t->action]);
   switch (t->kind) {
     case RK_SEND:
@@ -495,7 +495,11 @@ static void app_start_token(int ti)
     case RK_SEARCH_DNSREC:
       {
         ares_dns_record_t *rec = NULL;
-        st = ares_dns_record_create(&rec, 0, ARES_FLAG_RD, ARES_OPCODE_QUERY, ARES_RCODE_NOERROR);
+        unsigned short rflags = ARES_FLAG_RD;
+        if (app_dnsrec_flags_from_aiflags && t->kind == RK_SEND_DNSREC) {
+          rflags = (unsigned short)(((t->ai_flags & 1) ? ARES_FLAG_RD : 0) | ((t->ai_flags & 2) ? ARES_FLAG_CD : 0));
+        }
+        st = ares_dns_record_create(&rec, 0, rflags, ARES_OPCODE_QUERY, ARES_RCODE_NOERROR);
         if (st == ARES_SUCCESS) {
           st = ares_dns_record_query_add(rec, t->name, (ares_dns_rec_type_t)t->qtype, (ares_dns_class_t)t->qclass);
         }
@@ -759,6 +763,9 @@ static int app_channel_init(void)
     ares_set_pending_write_cb(app_channel, app_pending_write_cb, NULL);
   }
   app_servers_csv(csv, sizeof(csv), app_cfg.srv_cfg, app_cfg.nsrv_cfg);
+  for (i = 0; i < app_cfg.nsrv_cfg; i++) {
+    app_srv_ever_mask |= 1u << app_cfg.srv_cfg[i];
+  }
   rc = ares_set_servers_ports_csv(app_channel, csv);
   return rc;
 }
@@ -951,7 +958,29 @@ static void app_do_action(app_act_t *a)
         gen_alt_servers(idx, &n, &app_rng);
         app_servers_csv(csv, sizeof(csv), idx, n);
         sim_note("api_set_servers");
+        {
+          int x;
+          for (x = 0; x < n; x++) {
+            app_srv_ever_mask |= 1u << idx[x];
+          }
+        }
         if (ares_set_servers_ports_csv(app_channel, csv) == ARES_SUCCESS) {
+          /* does the SET of servers differ? (re-installing the same set is not a change) */
+          int differs = (n != app_cfg.nsrv_cfg), x, y;
+          for (x = 0; x < n && !differs; x++) {
+            int found = 0;
+            for (y = 0; y < app_cfg.nsrv_cfg; y++) {
+              if (app_cfg.srv_cfg[y] == idx[x]) {
+                found = 1;
+              }
+            }
+            if (!found) {
+              differs = 1;
+            }
+          }
+          if (differs) {
+            ck_epoch++;
+          }
           memcpy(app_cfg.srv_cfg, idx, sizeof(int) * (size_t)n);
           app_cfg.nsrv_cfg = n;
         }
@@ -965,8 +994,10 @@ static void app_do_action(app_act_t *a)
       break;
     case AA_REINIT:
       sim_note("api_reinit");
-      ares_reinit(app_channel);
-      app_wait_reinit();
+      if (ares_reinit(app_channel) == ARES_SUCCESS) {
+        app_wait_reinit();
+        ck_epoch++;
+      }
       mon_quiescent("reinit");
       break;
     case AA_READONLY:
